@@ -69,6 +69,10 @@ type replayer struct {
 	nEv     int
 	retain  []retained
 	notes   []string
+
+	pending  [][]byte
+	degraded bool
+	kept     int
 }
 
 type retained struct {
@@ -110,9 +114,22 @@ func (r *replayer) emit(e poolEvent) {
 	if err != nil {
 		panic(err)
 	}
-	r.out.Write(data)
-	r.out.WriteByte('\n')
-	r.nEv++
+	r.pending = append(r.pending, data)
+}
+
+// flush writes the events of the schedule just replayed, unless some call of it could not be gated: pool
+// traffic of ungated calls is invisible, so such a schedule cannot be validated against Pools and is dropped.
+func (r *replayer) flush() {
+	if !r.degraded {
+		for _, d := range r.pending {
+			r.out.Write(d)
+			r.out.WriteByte('\n')
+			r.nEv++
+		}
+		r.kept++
+	}
+	r.pending = nil
+	r.degraded = false
 }
 
 func (r *replayer) idOf(addr uintptr) int {
@@ -233,7 +250,10 @@ func (r *replayer) startCall(c int, kind string) bool {
 	<-ready
 	a, fin := r.waitArrival(c)
 	if fin != nil || a.at != "new" {
-		r.notes = append(r.notes, fmt.Sprintf("call of caller %d did not reach the constructor gate", c))
+		r.degraded = true
+		if len(r.notes) < 5 {
+			r.notes = append(r.notes, fmt.Sprintf("schedule %d dropped: the %s call of caller %d did not reach the constructor gate", r.sid, r.pool, c))
+		}
 		if fin != nil {
 			r.call[c] = *fin
 		}
@@ -412,6 +432,7 @@ func (r *replayer) runSchedule(steps []schedStep) {
 	drainPool(a)
 	drainPool(b)
 	r.emit(poolEvent{Ev: "Reset"})
+	r.flush()
 }
 
 // prepareArgs builds the call, remembers its argument part and starts it.
@@ -528,7 +549,7 @@ func cmdReplayPools(args []string) {
 		w.Close()
 	}
 	obs.gate = nil
-	sum := map[string]any{"schedules": n, "events": r.nEv, "files": files, "notes": r.notes, "hook_mode": hookModeFull()}
+	sum := map[string]any{"schedules": r.kept, "dropped": n - r.kept, "events": r.nEv, "files": files, "notes": r.notes, "hook_mode": hookModeFull()}
 	data, _ := json.MarshalIndent(sum, "", " ")
 	os.WriteFile(filepath.Join(*out, "replay.json"), data, 0o644)
 	fmt.Printf("replayed %d schedules, %d events\n", n, r.nEv)
